@@ -276,9 +276,12 @@ theorem ivelim_counterexample :
     runOptimised L 100 = .out [0, 0, 2, 4, 6, 8, 10, 12, 14, 16] 18 := by
   decide
 
-theorem ivelim_negative_multiplier_counterexample :
+/-- History: before `fix:` d2fa066 a zero or negative literal multiplier was eliminated too and the
+loop ran zero iterations (`ivelim_negative_multiplier_counterexample`); now such loops only get
+strength reduction and behave like the original. -/
+theorem ivelim_negative_multiplier_fixed :
     let L : ObsLoop := { g := .lt, i0 := 0, step := 1, bound := 3, m := -1, c := 0 }
-    runOriginal L 100 = .out [0, 0, -1] (-2) ∧ runOptimised L 100 = .out [] 0 := by
+    runOriginal L 100 = .out [0, 0, -1] (-2) ∧ runOptimised L 100 = .out [0, 0, -1] (-2) := by
   decide
 
 /-- The part of IV elimination that is right: for guard `<`, a positive multiplier and no
@@ -315,27 +318,31 @@ example : iterW (addT 2 (mulT 3 0)) (1 * 3) 4 = 14 := by decide
 
 /-! ### Loop level: what `loop_optimizations` makes of the observed counting loop -/
 
-/-- FULL STRENGTH: when IV elimination does not apply (two derived statements hang off `i`), what
+/-- FULL STRENGTH: when IV elimination does not apply (two derived statements hang off `i`, or the multiplier is not positive), what
 `loop_optimizations` produces (strength reduction only) behaves exactly like the original loop,
 for every loop of the family and every fuel. -/
-theorem loopopt_strength_path_sound (L : ObsLoop) (h : L.singleDerived = false) (fuel : Nat) :
+theorem loopopt_strength_path_sound (L : ObsLoop) (h : L.singleDerived = false ∨ L.m ≤ 0) (fuel : Nat) :
     runOptimised L fuel = runOriginal L fuel := by
   unfold runOptimised runOriginal mergeMul
-  simp only [h]
+  have hc : ¬ (L.singleDerived = true ∧ 0 < L.m) := by
+    rcases h with h | h
+    · simp [h]
+    · intro hh; omega
+  simp only [hc, if_false]
   have := runStrength_eq L fuel 0 0 []
   simp only [iterW] at this
   simp [this]
 
 /-- `ivelim_sound`, loop level, under the explicit condition that the new guard decides like the
 old one at every iteration up to the exit (`n` = the original loop's trip count). -/
-theorem ivelim_sound_partial (L : ObsLoop) (n : Nat) (hs : L.singleDerived = true)
+theorem ivelim_sound_partial (L : ObsLoop) (n : Nat) (hs : L.singleDerived = true) (hm0 : 0 < L.m)
     (hbr : BreaksAt L.g L.i0 L.step L.bound n)
     (hg : ∀ k, k ≤ n →
       decide (iterW (addT L.c (mulT L.m L.i0)) (wrap32 (L.step * L.m)) k < addT L.c (mulT L.m L.bound))
         = L.g.holds (iterW L.i0 L.step k) L.bound)
     (fuel : Nat) : runOptimised L fuel = runOriginal L fuel := by
   unfold runOptimised runOriginal mergeMul
-  simp only [hs, if_true]
+  simp only [hs, hm0, and_self, if_true]
   have := runElim_eq L n hbr hg fuel 0 (by omega) 0 []
   simp only [iterW] at this
   rw [this]
@@ -348,7 +355,7 @@ theorem ivelim_sound_noovf (L : ObsLoop) (n : Nat) (hs : L.singleDerived = true)
     (hov : ∀ k, k ≤ n → InRange (L.c + L.m * iterW L.i0 L.step k))
     (hb : InRange (L.c + L.m * L.bound))
     (fuel : Nat) : runOptimised L fuel = runOriginal L fuel := by
-  apply ivelim_sound_partial L n hs hbr _ fuel
+  apply ivelim_sound_partial L n hs hm hbr _ fuel
   intro k hk
   rw [strength_iter, derivedOf_eq, addT_mulT_eq, wrap32_of_inRange (hov k hk), wrap32_of_inRange hb, hgd]
   simp only [Guard.holds]
@@ -559,8 +566,8 @@ theorem lvn_break_must_be_renamed :
       = [.bin 2 .mul (.var 0) (.var 0), .brk (.var 2)] ∧
     (execSimple [.bin 2 .mul (.var 0) (.var 0), .brk (.var 3)] (fun v => if v = 0 then 5 else 0)).2 matches .brk 0 := by
   decide
-/-- FULL STRENGTH, loop bodies: blocks of statements and `SingleIf`s with statement bodies (any
-`Break` inside them included): same prints, same way of ending (trap / break with the same value /
+/-- FULL STRENGTH, loop bodies: blocks of statements, `SingleIf`s and `IfElse`s (with final
+assignments) whose branches are statement blocks (any `Break` inside them included): same prints, same way of ending (trap / break with the same value /
 fall through). -/
 theorem lvnL_preserves (p : List LStmt) (seen : List Nat) (cx : Cx) (ρ1 ρ2 : Nat → Int)
     (hwf : wfL p seen = true) (h : Inv seen cx ρ1 ρ2) :
@@ -568,17 +575,17 @@ theorem lvnL_preserves (p : List LStmt) (seen : List Nat) (cx : Cx) (ρ1 ρ2 : N
     (match (execL p ρ1).2, (execL (lvnL p cx) ρ2).2 with
      | .trap, .trap => True
      | .brk v, .brk w => v = w
-     | .next _, .next _ => True
+     | .next ρ1', .next ρ2' => Inv (seenAfterL p seen) (lvnCx p cx) ρ1' ρ2'
      | _, _ => False) := by
   induction p generalizing seen cx ρ1 ρ2 with
-  | nil => simp [execL, lvnL]
+  | nil => exact ⟨rfl, h⟩
   | cons st r ih =>
     cases st with
     | s st =>
       simp only [wfL, Bool.and_eq_true] at hwf
       have hs := lvnSimple_preserves [st] seen cx ρ1 ρ2 hwf.1 h
       simp only [lvnSimple] at hs
-      simp only [lvnL, execL]
+      simp only [lvnL, execL, seenAfterL, lvnCx]
       cases ho : lvn1 st cx with
       | mk o cx1 =>
         rw [ho] at hs
@@ -624,7 +631,7 @@ theorem lvnL_preserves (p : List LStmt) (seen : List Nat) (cx : Cx) (ρ1 ρ2 : N
       simp only [wfL, Bool.and_eq_true] at hwf
       obtain ⟨⟨hc, hb⟩, hr⟩ := hwf
       have ec := rnO_eval h c (vars_all hc)
-      simp only [lvnL, execL, ec]
+      simp only [lvnL, execL, ec, seenAfterL, lvnCx]
       split
       · have hs := lvnSimple_preserves body seen cx ρ1 ρ2 hb h
         cases hr1 : execSimple body ρ1 with
@@ -652,11 +659,163 @@ theorem lvnL_preserves (p : List LStmt) (seen : List Nat) (cx : Cx) (ρ1 ρ2 : N
               simp only
               rw [hs.1, this.1]; exact ⟨rfl, this.2⟩
       · exact ih seen cx ρ1 ρ2 hr h
+    | ife c s1 s2 fas =>
+      simp only [wfL, Bool.and_eq_true] at hwf
+      obtain ⟨⟨⟨⟨⟨hc, hb1⟩, hb2⟩, hfas⟩, hwfa⟩, hr⟩ := hwf
+      have ec := rnO_eval h c (vars_all hc)
+      have hfas' := List.all_eq_true.mp hfas
+      simp only [lvnL, execL, ec, List.map_map, Function.comp_def, seenAfterL, lvnCx]
+      split
+      · have hbr := lvn_branch h s1 hb1 fas (fun q => q.1)
+          (fun fa hfa => vars_all (by have := hfas' fa hfa; simp only [Bool.and_eq_true] at this; exact this.1)) hwfa
+        cases hr1 : execSimple s1 ρ1 with
+        | mk t1 res1 =>
+          cases hr2 : execSimple (lvnSimple s1 cx).1 ρ2 with
+          | mk t2 res2 =>
+            rw [hr1, hr2] at hbr
+            simp only at hbr
+            cases res1 <;> cases res2 <;> simp only at hbr ⊢
+            · exact ⟨hbr.1, trivial⟩
+            · exact hbr.2.elim
+            · exact hbr.2.elim
+            · exact hbr.2.elim
+            · exact ⟨hbr.1, hbr.2⟩
+            · exact hbr.2.elim
+            · exact hbr.2.elim
+            · exact hbr.2.elim
+            · have := ih _ cx _ _ hr hbr.2
+              rw [hbr.1, this.1]; exact ⟨rfl, this.2⟩
+      · have hbr := lvn_branch h s2 hb2 fas (fun q => q.2)
+          (fun fa hfa => vars_all (by have := hfas' fa hfa; simp only [Bool.and_eq_true] at this; exact this.2)) hwfa
+        cases hr1 : execSimple s2 ρ1 with
+        | mk t1 res1 =>
+          cases hr2 : execSimple (lvnSimple s2 cx).1 ρ2 with
+          | mk t2 res2 =>
+            rw [hr1, hr2] at hbr
+            simp only at hbr
+            cases res1 <;> cases res2 <;> simp only at hbr ⊢
+            · exact ⟨hbr.1, trivial⟩
+            · exact hbr.2.elim
+            · exact hbr.2.elim
+            · exact hbr.2.elim
+            · exact ⟨hbr.1, hbr.2⟩
+            · exact hbr.2.elim
+            · exact hbr.2.elim
+            · exact hbr.2.elim
+            · have := ih _ cx _ _ hr hbr.2
+              rw [hbr.1, this.1]; exact ⟨rfl, this.2⟩
 example : wfL [.s (.bin 2 .mul (.var 0) (.var 0)), .s (.bin 3 .gt (.var 2) (.var 1)),
               .sif (.var 3) false [.bin 4 .mul (.var 0) (.var 0), .brk (.var 4)]] [0, 1] = true := by decide
 example : lvnL [.s (.bin 2 .mul (.var 0) (.var 0)), .s (.bin 3 .gt (.var 2) (.var 1)),
               .sif (.var 3) false [.bin 4 .mul (.var 0) (.var 0), .brk (.var 4)]] { ren := [], avail := [] }
         = [.s (.bin 2 .mul (.var 0) (.var 0)), .s (.bin 3 .gt (.var 2) (.var 1)), .sif (.var 3) false [.brk (.var 2)]] := by decide
+
+/-! ### LVN of a `While` (nested loop, loop values) -/
+
+/-- well-formedness of a `While` relative to the names in scope before it -/
+def wfLoop (W : Loop) (seen : List Nat) : Bool :=
+  W.lvs.all (fun lv => lv.2.1.vars.all seen.contains)
+    && wfFa (W.lvs.map (·.1)) seen
+    && wfL W.body (seenFa (W.lvs.map (·.1)) seen)
+    && W.lvs.all (fun lv => lv.2.2.vars.all (seenAfterL W.body (seenFa (W.lvs.map (·.1)) seen)).contains)
+
+def LoopRel : Option (List Int × Res) → Option (List Int × Res) → Prop
+  | none, none => True
+  | some (t1, .trap), some (t2, .trap) => t1 = t2
+  | some (t1, .brk v), some (t2, .brk w) => t1 = t2 ∧ v = w
+  | _, _ => False
+
+theorem iterLoop_preserves (W : Loop) (seen : List Nat) (cx : Cx) (hwf : wfLoop W seen = true)
+    (fuel : Nat) (ρ1 ρ2 : Nat → Int) (h : Inv seen cx ρ1 ρ2) (l : List (Nat × Int))
+    (hl : l.map (·.1) = W.lvs.map (·.1)) :
+    LoopRel (iterLoop W.lvs W.body fuel (assignAll ρ1 l))
+            (iterLoop (lvnLoop W cx).lvs (lvnLoop W cx).body fuel (assignAll ρ2 l)) := by
+  simp only [wfLoop, Bool.and_eq_true] at hwf
+  obtain ⟨⟨⟨hinit, hnames⟩, hbody⟩, hvals⟩ := hwf
+  induction fuel generalizing ρ1 ρ2 l with
+  | zero => simp [iterLoop, LoopRel]
+  | succ fuel ih =>
+    have hA := assign_inv l seen ρ1 ρ2 h (by rw [hl]; exact hnames)
+    rw [hl] at hA
+    have hb := lvnL_preserves W.body _ cx _ _ hbody hA
+    simp only [lvnLoop, lvnLc_eq, iterLoop]
+    cases hr1 : execL W.body (assignAll ρ1 l) with
+    | mk t1 res1 =>
+      cases hr2 : execL (lvnL W.body cx) (assignAll ρ2 l) with
+      | mk t2 res2 =>
+        rw [hr1, hr2] at hb
+        simp only at hb
+        cases res1 <;> cases res2 <;> simp only at hb ⊢
+        · exact hb.1
+        · exact hb.2.elim
+        · exact hb.2.elim
+        · exact hb.2.elim
+        · exact ⟨hb.1, hb.2⟩
+        · exact hb.2.elim
+        · exact hb.2.elim
+        · exact hb.2.elim
+        · rename_i A' B'
+          obtain ⟨ht, hI⟩ := hb
+          -- the body and the loop-variable assignments only touch names outside `seen`
+          have hlv : ∀ v, v ∈ seen → v ∉ l.map (·.1) := by
+            intro v hv hm; rw [hl] at hm; exact wfFa_not_seen _ seen hnames v hm hv
+          have f1 : ∀ v, v ∈ seen → A' v = ρ1 v := by
+            intro v hv
+            rw [execL_frame W.body _ A' (by rw [hr1]) v
+              (fun hd => defsL_not_seen W.body _ hbody v hd ((mem_seenFa _ seen v).mpr (Or.inr hv)))]
+            exact assignAll_frame l ρ1 v (hlv v hv)
+          have f2 : ∀ v, v ∈ seen → B' v = ρ2 v := by
+            intro v hv
+            rw [execL_frame _ _ B' (by rw [hr2]) v
+              (fun hd => defsL_not_seen W.body _ hbody v (defsL_lvnL W.body cx v hd) ((mem_seenFa _ seen v).mpr (Or.inr hv)))]
+            exact assignAll_frame l ρ2 v (hlv v hv)
+          have hout := inv_frame h f1 f2
+          have hvals' := List.all_eq_true.mp hvals
+          have heq : ((W.lvs.map fun lv => (lv.1, rnO cx.ren lv.2.1, rnO (lvnCx W.body cx).ren lv.2.2)).map
+                fun lv => (lv.1, lv.2.2.eval B')) = (W.lvs.map fun lv => (lv.1, lv.2.2.eval A')) := by
+            rw [List.map_map]
+            apply List.map_congr_left
+            intro lv hlv'
+            simp only [Function.comp_def]
+            rw [rnO_eval hI lv.2.2 (vars_all (hvals' lv hlv'))]
+          rw [heq]
+          have := ih A' B' hout (W.lvs.map fun lv => (lv.1, lv.2.2.eval A')) (by simp [List.map_map, Function.comp_def])
+          simp only [lvnLoop, lvnLc_eq] at this
+          revert this
+          cases iterLoop W.lvs W.body fuel (assignAll A' (W.lvs.map fun lv => (lv.1, lv.2.2.eval A'))) with
+          | none =>
+            cases iterLoop _ (lvnL W.body cx) fuel (assignAll B' (W.lvs.map fun lv => (lv.1, lv.2.2.eval A'))) with
+            | none => simp [LoopRel]
+            | some r2 => simp [LoopRel]
+          | some r1 =>
+            cases iterLoop _ (lvnL W.body cx) fuel (assignAll B' (W.lvs.map fun lv => (lv.1, lv.2.2.eval A'))) with
+            | none => obtain ⟨a, b⟩ := r1; cases b <;> simp [LoopRel]
+            | some r2 =>
+              obtain ⟨a1, b1⟩ := r1; obtain ⟨a2, b2⟩ := r2
+              cases b1 <;> cases b2 <;> simp only [LoopRel, Option.map] <;> intro this
+              all_goals first | exact this.elim | (rw [ht, this]) | exact ⟨by rw [ht, this.1], this.2⟩
+
+/-- FULL STRENGTH: local value numbering of a `While` (initial values through the outer context, body
+in a pushed scope, loop values through the context at the end of the body): for every fuel the loop
+prints the same values and traps / breaks with the same value, or both are still running. -/
+theorem lvnLoop_preserves (W : Loop) (seen : List Nat) (cx : Cx) (ρ1 ρ2 : Nat → Int)
+    (hwf : wfLoop W seen = true) (h : Inv seen cx ρ1 ρ2) (fuel : Nat) :
+    LoopRel (execLoop W fuel ρ1) (execLoop (lvnLoop W cx) fuel ρ2) := by
+  have hinit : ((lvnLoop W cx).lvs.map fun lv => (lv.1, lv.2.1.eval ρ2)) = (W.lvs.map fun lv => (lv.1, lv.2.1.eval ρ1)) := by
+    simp only [lvnLoop, List.map_map]
+    apply List.map_congr_left
+    intro lv hlv
+    simp only [Function.comp_def]
+    have hw := hwf
+    simp only [wfLoop, Bool.and_eq_true] at hw
+    rw [rnO_eval h lv.2.1 (vars_all (List.all_eq_true.mp hw.1.1.1 lv hlv))]
+  unfold execLoop
+  rw [hinit]
+  exact iterLoop_preserves W seen cx hwf fuel ρ1 ρ2 h _ (by simp [List.map_map, Function.comp_def])
+
+example : (lvnLoop { lvs := [(2, .lit 0, .var 5)], body := [.s (.bin 3 .mul (.var 2) (.var 2)), .s (.bin 4 .gt (.var 3) (.var 1)),
+      .sif (.var 4) false [.bin 6 .mul (.var 2) (.var 2), .brk (.var 6)], .s (.bin 5 .add (.var 2) (.lit 1)), .s (.bin 7 .add (.var 2) (.lit 1))] }
+    { ren := [], avail := [] }).lvs = [(2, .lit 0, .var 5)] := by decide
 
 /-! ## 10. Common-subexpression elimination never hoists a trap above an effect -/
 
@@ -679,5 +838,64 @@ theorem cse_div_hoist_counterexample :
   decide
 example : cseCommon [.bin 2 .add (.var 0) (.var 1), .bin 3 .div (.var 0) (.var 1)]
                     [.bin 4 .div (.var 0) (.var 1), .bin 5 .add (.var 0) (.var 1)] = [(.add, .var 0, .var 1)] := by decide
+
+/-! ## 11. Inlining: a call replaced by the renamed body of the callee
+
+`inlineBody_preserves` (in `Lemmas/OptKernel.lean`, audited) is the invariant-carrying statement for
+the body; the theorem here is the whole replacement of one call. -/
+
+/-- FULL STRENGTH (`inline_preserves`): replacing `c = f(args)` by the renamed body of `f` plus
+`c = ret + 0` prints the same values, traps iff the call traps, and leaves every caller-visible name
+unchanged and `c` bound to the returned value (as a 32-bit value) — for every SSA callee body, every
+injective renaming into names that are fresh for the caller, every argument list and environment. -/
+theorem inline_preserves (mg : Nat → Nat) (S : List Nat) (hinj : ∀ x y, mg x = mg y → x = y)
+    (hfresh : ∀ x, mg x ∉ S) (f : Callee) (args : List Operand) (c : Nat) (ρ : Nat → Int)
+    (hlen : f.ps.length = args.length)
+    (hargs : ∀ a, a ∈ args → ∀ v, v ∈ a.vars → v ∈ S)
+    (hwf : wfCallee f.body f.ps = true)
+    (hret : ∀ v, v ∈ f.ret.vars → v ∈ defsSimple f.body ∨ v ∈ f.ps) :
+    (execCall f args c ρ).1 = (execSimple (inlineCall mg f args c) ρ).1 ∧
+    (match (execCall f args c ρ).2, (execSimple (inlineCall mg f args c) ρ).2 with
+     | .trap, .trap => True
+     | .next ρ1, .next ρ2 => ρ2 c = wrap32 (ρ1 c) ∧ ∀ v, v ∈ S → v ≠ c → ρ2 v = ρ1 v
+     | _, _ => False) := by
+  have hkeys : keys (f.ps.zip args) = f.ps := by
+    simp only [keys]
+    rw [List.map_fst_zip]; omega
+  have h0 := iinv_init mg S f.ps args ρ hargs
+  have hb := inlineBody_preserves mg S hinj hfresh f.body (f.ps.zip args) _ ρ ρ (by rw [hkeys]; exact hwf) h0
+  simp only [execCall, inlineCall]
+  rw [execSimple_append]
+  cases h1 : execSimple f.body (bindParams f.ps (args.map (·.eval ρ))) with
+  | mk t1 r1 =>
+    cases h2 : execSimple (inlineBody mg f.body (f.ps.zip args)).1 ρ with
+    | mk t2 r2 =>
+      rw [h1, h2] at hb
+      simp only at hb
+      cases r1 <;> cases r2 <;> simp only at hb ⊢
+      · exact ⟨hb.1, trivial⟩
+      · exact hb.2.elim
+      · exact hb.2.elim
+      · exact hb.2.elim
+      · exact hb.2.elim
+      · exact hb.2.elim
+      · exact hb.2.elim
+      · exact hb.2.elim
+      · rename_i σ' ρ''
+        obtain ⟨ht, hI, _⟩ := hb
+        have hretk : ∀ v, v ∈ f.ret.vars → v ∈ keys (inlineBody mg f.body (f.ps.zip args)).2 := by
+          intro v hv
+          rw [keys_inlineBody, hkeys]; exact hret v hv
+        have er := irw_eval hI f.ret hretk
+        have e0 : (Operand.lit 0).eval ρ'' = 0 := rfl
+        simp only [execSimple, evalTarget, er, e0, Int.add_zero, List.append_nil]
+        refine ⟨ht, by simp [update], ?_⟩
+        intro v hv hvc
+        simp only [update, hvc, if_false]
+        exact hI.frame v hv
+
+example : inlineCall (· + 1000) { ps := [0, 1], body := [.bin 2 .mul (.var 0) (.var 1), .print (.var 2)], ret := .var 2 }
+            [.var 5, .lit 3] 9
+        = [.bin 1002 .mul (.var 5) (.lit 3), .print (.var 1002), .bin 9 .add (.var 1002) (.lit 0)] := by decide
 
 end SamVerif.Opt
